@@ -25,6 +25,7 @@ fn descs() -> Vec<FnDesc> {
         FnDesc { name: "e", cacheable: false, kind: Kind::E, suspend: 0 },
         FnDesc { name: "ec", cacheable: true, kind: Kind::E, suspend: 0 },
         FnDesc { name: "n", cacheable: true, kind: Kind::N, suspend: 0 },
+        FnDesc { name: "er", cacheable: false, kind: Kind::ER, suspend: 0 },
     ]
 }
 
@@ -49,6 +50,7 @@ fn templates() -> Vec<(&'static str, Expr, bool)> {
         ("fail-unknown-function", Expr::func("nosuch", Expr::value(1)), true),
         ("fail-user-function", Expr::func("e", Expr::value(1)), true),
         ("fail-user-function-cacheable", Expr::func("ec", Expr::value(1)), true),
+        ("fail-user-function-with-reval-error", Expr::func("er", Expr::value(1)), true),
         ("fail-after-call", Expr::add(Expr::func("c", Expr::value(1)), Expr::value(1)), true),
     ]
 }
